@@ -470,7 +470,7 @@ def judge_local_later(case):
     """a class / function declared inside a function refers to a MODULE-LEVEL class defined later (legal: the name is global when
     the declaration is first used); it behaves as the same declaration with the class defined first"""
     wrap, what = case["wrap"], case.get("what", "class")
-    if wrap not in WRAPS or what not in ("class", "param", "return", "varargs", "return_only"):
+    if wrap not in WRAPS or what not in ("class", "param", "return", "varargs", "return_only", "yields_whole"):
         raise HarnessError("bad local-later case")
     _n[0] += 1
     L = f"Later{_n[0]}"
@@ -482,6 +482,11 @@ def judge_local_later(case):
             return f"def make():\n    class Loc(utype.Schema):\n        nxt: {a} = {DEFAULT[wrap]}\n    return Loc.__from__\n"
         if what == "param":
             return f"def make():\n    @utype.parse\n    def fn(nxt: {a} = None):\n        return {{'nxt': nxt}}\n    return lambda d: fn(**d)\n"
+        if what == "yields_whole":
+            # a generator whose WHOLE result annotation is one string naming the later class: what it yields is parsed all the same
+            it = f"Iterator[{ann(wrap, L)}]"
+            return (f"def make():\n    @utype.parse\n    def fn(nxt) -> {repr(it) if ref != L else it}:\n        yield nxt\n"
+                    f"    return lambda d: {{'nxt': list(fn(**d))[0]}}\n")
         if what == "return_only":
             # only the result is parsed (ignore_params): the reference in the return annotation is the function's only pending one
             return f"def make():\n    @utype.parse(ignore_params=True)\n    def fn(nxt) -> {a}:\n        return nxt\n    return lambda d: {{'nxt': fn(**d)}}\n"
@@ -761,7 +766,7 @@ def campaign(ctx):
                         body({"part": "inherit", "wrap": wrap, "first": first, "base": base, "style": style, "levels": 3})
     # declarations local to a function that name a module-level class defined later: enumerated completely
     for wrap in WRAPS:
-        for what in ("class", "param", "return", "varargs", "return_only"):
+        for what in ("class", "param", "return", "varargs", "return_only", "yields_whole"):
             idx += 1
             if idx % ctx.nshards != ctx.shard:
                 continue
